@@ -104,7 +104,7 @@ prop("C13", "Unbounded proof of the framing of the payload wire format: the head
      {"(*payload.Bin).EncodeHeader": None, "(*payload.Encoder).startNextPart": None, "(*payload.Encoder).Read": None,
       "(*payload.PartDecoder).Read": None, "(*payload.Decoder).Next": None, "(*payload.Decoder).GetParts": None,
       H+"routeData": ["bad-header-length-is-refused", "prepares-the-announced-parts", "index-in-range", "part-k-with-reader-k", "complete-only-at-the-end", "partial-answer-after-a-failed-part", "partcount-is-receive-count"]})
-prop("C14", "Unbounded proof of the path discipline: part names and rename targets taken from a request are refused unless they are local paths (loop invariant over the decoded descriptors, against the uninterpreted predicate local = filepath.IsLocal); the source names '.', '..' and '' never reach the gatekeeper factory; every file-system effect of the stage takes Join(root, announced name) (+ a fixed extension); the static route touches files only through the rooted handle os.Root, only after both sanitisers accepted, and never through path-based os calls",
+prop("C14", "Unbounded proof of the path discipline: part names and rename targets taken from a request are refused unless they are local paths (loop invariant over the decoded descriptors, against the uninterpreted predicate local = filepath.IsLocal); the source names '.', '..' and '' never reach the gatekeeper factory, and the factory builds the stage, final and log roots from the source name with every separator replaced; every file-system effect of the stage takes Join(root, announced name) (+ a fixed extension); the static route touches files only through the rooted handle os.Root, only after both sanitisers accepted, and never through path-based os calls",
      "semantics of filepath.Join / filepath.IsLocal / os.Root (trusted); sanitizeRelativePath's own loop over segments is trusted (covered by the existing tests only); the composition decoder -> route -> stage is a paper step",
      {"payload.NewDecoder": None, H+"getGateKeeper": None, H+"routeFile": None, "http.sanitizePathSegment": None, "http.rootRelativePath": None,
       H+"routeData": ["part-k-with-reader-k", "prepares-the-announced-parts"],
@@ -112,11 +112,11 @@ prop("C14", "Unbounded proof of the path discipline: part names and rename targe
       S+"Prepare": None,
       S+"putFileAway": ["moves-wait-body"],
       S+"partReceived": ["reads-own-companion", "same-version-only"],
-      S+"cleanStrays": ["only-part-files"]})
-prop("C15", "Unbounded proof that a request reaches a route only after the source has a gatekeeper, the gatekeeper is ready and the validator accepted source and key (with the matching refusal codes and nothing written before); every route that reaches a gatekeeper or the serve directory is registered behind that guard; the standard validator accepts exactly listed sources (matching the name pattern) and listed keys (index search proved with a loop invariant); recovery keeps the gatekeeper not ready for its whole duration",
+      S+"cleanStrays": ["only-part-files"], "(*main.serverApp).init$3": None})
+prop("C15", "Unbounded proof that a request reaches a route only after the source has a gatekeeper, the gatekeeper is ready and the validator accepted source and key (with the matching refusal codes and nothing written before); every route that reaches a gatekeeper or the serve directory is registered behind that guard; the standard validator accepts exactly listed sources (matching the name pattern) and listed keys (index search proved with a loop invariant); recovery keeps the gatekeeper not ready for its whole duration, and the validation of recovered files happens inside that window (synchronously in workers that Recover waits for)",
      "the race between 'go stager.Recover()' at start-up and the first request (schedule-dependent, A1); the Postgres validator; that stage.New has no file-system effect is not yet under contract",
      {H+"handleValidate$1": None, H+"Serve": None, "main.strToIndex": None, "(*main.serverApp).standardValidator": None,
-      S+"Recover": ["not-ready-for-duration"], S+"setCanReceive": None, S+"Ready": None})
+      S+"Recover": ["not-ready-for-duration", "validation-ends-before-ready"], S+"Recover$2": ["validation-ends-before-ready"], S+"setCanReceive": None, S+"Ready": None})
 L = "(*log.FileIO)."
 prop("C18", "Unbounded proof of the transfer-log look-up: a day file answers yes only for a line that starts with exactly the name followed by the separator and carries ':hash:' behind it, and such a line always answers yes (string theory); the look-up asks for exactly name and hash; the window is walked in one-day steps from start until the cursor has passed the stop, forward and backward, and an empty window opens nothing; the records are written name-first with ':' separators; the log file is synced when required",
      "local-time / DST day arithmetic (24 h days assumed); concurrent writers (single writer goroutine, A1); Parse splits on ':' so names containing the separator shift the fields (not under contract: strings.Split is not modelled)",
